@@ -49,6 +49,9 @@ theorem idxMap_getD {K : Type} (x : List K) (f : Nat → K → K) (i : Nat) (d :
     (h : i < x.length) : (idxMap x f).getD i d = f i (x.getD i d) := by
   simp [idxMap, List.getD_eq_getElem?_getD, h]
 
+/-- Example data for the simplex threshold: the sorted vector (1, 1/2, -1). -/
+def uEx : ℕ → ℚ := fun k => if k = 0 then 1 else if k = 1 then 1 / 2 else -1
+
 /-! ## the abstract layer: functionals on a real inner product space -/
 section Abstract
 variable {E : Type} [NormedAddCommGroup E] [InnerProductSpace ℝ E]
